@@ -4,7 +4,7 @@
    map (angles differentiated as points of the circle), on the whole domain of C12_pose_jacobian. *)
 From Coq Require Import Reals ZArith Lra Lia List.
 From Coquelicot Require Import Coquelicot.
-From Romea Require Import Num NumR AnglesModel AnglesProofs AnglesRoundtrip PoseCovModel PoseCovProofs PoseJacMrot PoseJacCharts
+From Romea Require Import Num NumR AnglesModel AnglesProofs AnglesRoundtrip PoseCovModel PoseCovProofs DerivProofs PoseJacMrot PoseJacCharts
   SrcTieC12.
 From Romea.gen Require Import SrcEigenC12.
 Local Open Scope R_scope.
@@ -36,4 +36,19 @@ Proof.
   - unfold pos, ori. rewrite tie_pose_jacobian by assumption.
     exact (proj2 (pose_J_is_jacobian l t q Hl H20 i j Hi Hj)).
   - apply src_pose_map_is_model. lra.
+Qed.
+
+(* the open known finding, stated about the terms generated from src/transform/SmartRotation3D.cpp: the matrices the accessors
+   dRdAngleAroundX/Y/ZAxis return are the true derivatives of R plus the identity leftover, and never the derivatives *)
+Lemma source_smart_derivative_leftover x y z :
+  (src_smart_ctor_dRdAngleX ROps x y z = madd3 ROps (dRdX_true x y z) (extraX x y z) /\
+   src_smart_ctor_dRdAngleY ROps x y z = madd3 ROps (dRdY_true x y z) (extraY x y z) /\
+   src_smart_ctor_dRdAngleZ ROps x y z = madd3 ROps (dRdZ_true x y z) (extraZ x y z)) /\
+  (src_smart_ctor_dRdAngleX ROps x y z <> dRdX_true x y z /\
+   src_smart_ctor_dRdAngleY ROps x y z <> dRdY_true x y z /\
+   src_smart_ctor_dRdAngleZ ROps x y z <> dRdZ_true x y z) /\
+  src_smart_ctor_R ROps x y z = rot_zyx x y z.
+Proof.
+  rewrite tie_smart_dRdX, tie_smart_dRdY, tie_smart_dRdZ, tie_smart_R.
+  split; [exact (dRdX_model_char x y z)|split; [exact (dRdX_never_derivative x y z)|exact (smart_R_is_rzyx x y z)]].
 Qed.
